@@ -252,6 +252,8 @@ KeepSet(g, d, src, route, bug) ==
     LET base == AllowedShared(g, d, src) IN
     CASE bug = "no_preseed_taxa" /\ d = "TNS" /\ route = "ctor" -> NsSet(g, src)
       [] bug = "share_comments" -> base \cup OfKind(g, Reach(g, {src}), {"list"})
+      \* a namespace configured as immutable (is_mutable = False) is treated as a value and shared by deep copies
+      [] bug = "locked_ns_shared" /\ d = "Deep" -> Reach(g, NsSet(g, src))
       [] bug = "thin_shares_edge" /\ d = "Thin" -> base \cup OfKind(g, Reach(g, {src}), {"Edge"})
       [] bug = "shallow_deep_members" /\ d = "Shallow" -> Reach(g, NsSet(g, src))
       [] bug = "clone1_shares_trees" /\ d = "TNS" /\ route = "clone1" -> base \cup Reach(g, OfKind(g, Reach(g, {src}) \ {src}, {"Tree"}))
@@ -284,7 +286,27 @@ OpCopy(g, src, cls, route, bug) ==
 
 \* ------------------------------------------------------------------ reference mutations (bounded model)
 Ops == {"SetLabel", "SetLength", "SetNodeLabel", "RelabelTaxon", "AddTaxon", "AddAnnotation", "ChangeAnnotation",
-        "ChangeBoundAttr", "Encode", "Structural", "SetCell", "AddComment"}
+        "ChangeBoundAttr", "Encode", "Structural", "SetCell", "AddComment", "AnnotateNamespace"}
+
+(* Object configurations: flags and settings that are part of the instance   *)
+(* state of the copied object and must not change the depth of any route:    *)
+(* TaxonNamespace.is_mutable = False, is_case_sensitive = True, the rooting  *)
+(* state of trees (None / False / True), tree weights, labels that are None. *)
+(* In the model a configuration only changes the value (dig) of the          *)
+(* configured objects; the depth table has no configuration argument.        *)
+Configs == {"default", "ns_locked", "ns_case", "unrooted", "rooting_none", "weighted", "unlabelled"}
+ConfApplies(cls, conf) == conf \in {"unrooted", "rooting_none", "weighted"} => cls \in {"Tree", "TreeList"}
+ApplyConf(g, root, conf) ==
+    LET nss == NsSet(g, root)
+        trees == OfKind(g, Reach(g, {root}), {"Tree"})
+        bump(S, k) == [g EXCEPT !.dig = [i \in 1..Len(g.dig) |-> IF i \in S THEN g.dig[i] + k ELSE g.dig[i]]]
+    IN CASE conf = "ns_locked" -> bump(nss, 1)
+         [] conf = "ns_case" -> bump(nss, 2)
+         [] conf = "unrooted" -> bump(trees, 3)
+         [] conf = "rooting_none" -> bump(trees, 4)
+         [] conf = "weighted" -> bump(trees, 5)
+         [] conf = "unlabelled" -> bump({root} \cup trees, 6)
+         [] OTHER -> g
 SetDig(g, x) == [g EXCEPT !.dig[x] = @ + 1]
 AddObj(g, parent, k) == [kind |-> Append(g.kind, k), succ |-> Append([g.succ EXCEPT ![parent] = Append(@, N(g) + 1)], <<>>),
                          dig |-> Append([g.dig EXCEPT ![parent] = @ + 1], 0), lsucc |-> g.lsucc]
@@ -299,6 +321,7 @@ OpTarget(g, root, op) ==
       [] op = "SetNodeLabel" -> FirstOf(g, root, {"Node"})
       [] op = "RelabelTaxon" -> FirstOf(g, root, {"Taxon"})
       [] op = "AddTaxon" -> FirstOf(g, root, {"Namespace"})
+      [] op = "AnnotateNamespace" -> FirstOf(g, root, {"Namespace"})
       [] op = "AddAnnotation" -> AnnSetOf(g, root)
       [] op = "ChangeAnnotation" -> (IF PlainAnns(g, root) = {} THEN 0 ELSE CMin(PlainAnns(g, root)))
       [] op = "ChangeBoundAttr" -> (IF BoundAnns(g, root) = {} THEN 0 ELSE g.succ[CMin(BoundAnns(g, root))][1])
@@ -309,7 +332,7 @@ OpTarget(g, root, op) ==
 OpMutate(g, root, op) ==
     LET x == OpTarget(g, root, op) IN
     CASE op = "AddTaxon" -> AddObj(g, x, "Taxon")
-      [] op = "AddAnnotation" -> AddObj(g, x, "Annotation")
+      [] op \in {"AddAnnotation", "AnnotateNamespace"} -> AddObj(g, x, "Annotation")
       [] op = "Encode" -> AddObj(g, x, "Bipartition")
       [] op = "Structural" -> (IF g.kind[root] = "Tree" THEN AddObj(g, x, "Node")
                                ELSE IF g.kind[root] = "TreeList" THEN AddObj(g, x, "Tree")
